@@ -102,6 +102,9 @@ _WIN_DTYPES = ['bool', 'int64', 'float64', '<U5', 'object', 'M8[D]', 'int8', 'fl
 _WIN_KINDS = ['auto', 'int', 'str', 'IndexDate', 'hier2', 'mixed', 'float', 'negint']
 
 
+TECHNIQUE = 'runtime monitoring: partition oracle for groups (one-pass reference grouping) and a positional window model over an exhaustive small parameter space; private sys.monitoring probe records which implementation branch ran'
+
+
 def _norm(dt, v):
     return V.normalize(dt, v)
 
